@@ -162,8 +162,9 @@ fn same_element(vr: VR, a: &Value<InMemDicomObject, Vec<u8>>, b: &Value<InMemDic
                         let single = matches!(p, PrimitiveValue::F32(_));   // binary32 values are written with binary32 precision
                         x.len() == y.len() && x.iter().zip(y.iter()).all(|(a, b)| b.parse::<f64>().map_or(false, |v| feq(*a, v) || *a == v || (single && (v as f32) as f64 == *a)))
                     } else {
-                        let x = p.to_multi_str();
-                        x.len() == y.len() && x.iter().zip(y.iter()).all(|(a, b)| a.trim_end_matches([' ', '\0']) == b.trim_end_matches([' ', '\0']))
+                        // text original: the same backslash-separated text value (a `Str` holding the delimiter
+                        // and the `Strs` read back denote the same value; `to_multi_str` would split only the latter)
+                        p.to_str() == q.to_str()
                     };
                     if ok { Ok(()) } else { Err(format!("NumericString:{:?} vs {:?}", p, y)) }
                 }
